@@ -99,7 +99,8 @@ Lemma merge_one_ok c s S m M k l :
   iget (m_idx m) k = Some l -> S (l_fid l) = true ->
   exists m' M', merge_one c m k l = ROk m' /\ LI s S m' M' /\
     (exists l', iget (m_idx m') k = Some l' /\ S (l_fid l') = false) /\
-    (forall k', beq k' k = false -> iget (m_idx m') k' = iget (m_idx m) k').
+    (forall k', beq k' k = false -> iget (m_idx m') k' = iget (m_idx m) k') /\
+    (exists en, M' = M ++ [en] /\ key_of en = k /\ esize en = l_len l /\ S (fid_of en) = false).
 Proof.
   intros (Hs & Hle & Hh & Hid & Hgt & (fm & hs & Hfm & Hhint & Hpos) & Hlog & HM & HC & HV) HSle Hk HSl.
   destruct HC as (C1 & C2 & C3).
@@ -168,7 +169,8 @@ Proof.
       split; [exact HM2|]. split; [|exact HV2].
       rewrite <- Hidx. rewrite app_assoc. exact Hcons.
     + cbn [m_idx]. rewrite iget_aset, beq_refl. eexists. split; [reflexivity|]. cbn [l_fid]. exact HSm.
-    + intros k' Hk'. cbn [m_idx]. rewrite iget_aset, Hk'. reflexivity.
+    + split; [intros k' Hk'; cbn [m_idx]; rewrite iget_aset, Hk'; reflexivity|].
+      exists en. subst en. cbn [key_of esize fid_of loc_of l_len]. auto.
   - eexists _, (M ++ [en]). split; [reflexivity|]. split; [|split].
     + unfold LI. cbn [m_dir m_idx m_stats m_id m_pos m_last].
       split; [exact Hs2|]. split; [rewrite <- Hid; exact Hle2|]. split; [exact Hh2|].
@@ -178,7 +180,8 @@ Proof.
       split; [exact Hlog2'|]. split; [exact HM2|]. split; [|exact HV2].
       rewrite <- Hidx. rewrite app_assoc. exact Hcons.
     + cbn [m_idx]. rewrite iget_aset, beq_refl. eexists. split; [reflexivity|]. cbn [l_fid]. exact HSm.
-    + intros k' Hk'. cbn [m_idx]. rewrite iget_aset, Hk'. reflexivity.
+    + split; [intros k' Hk'; cbn [m_idx]; rewrite iget_aset, Hk'; reflexivity|].
+      exists en. subst en. cbn [key_of esize fid_of loc_of l_len]. auto.
 Qed.
 
 (* ---------- the whole loop ---------- *)
@@ -198,7 +201,7 @@ Proof.
               merge_loop c sel m (k :: ord) = merge_loop c sel m1 ord).
     { cbn [merge_loop]. destruct (iget (m_idx m) k) as [l|] eqn:Ek.
       - destruct (mem (l_fid l) sel) eqn:Em.
-        + destruct (merge_one_ok c s S m M k l HLI HSle Ek ltac:(rewrite HS; exact Em)) as (m1 & M1 & H1 & HLI1 & (l' & Hl' & HSl') & Hoth).
+        + destruct (merge_one_ok c s S m M k l HLI HSle Ek ltac:(rewrite HS; exact Em)) as (m1 & M1 & H1 & HLI1 & (l' & Hl' & HSl') & Hoth & _).
           rewrite H1. exists m1, M1. split; [exact HLI1|]. split; [|split; [rewrite Hl'; exact HSl'|reflexivity]].
           intros k'. destruct (beq_spec k' k) as [->|Hne]; [right; eauto|left; apply Hoth; apply beq_neq; exact Hne].
         + exists m, M. split; [exact HLI|]. split; [apply moved_refl|]. split; [|reflexivity]. rewrite Ek, HS. exact Em.
@@ -303,103 +306,3 @@ Proof. intros (C1 & C2 & C3). repeat split; try apply C1; try (apply C2; reflexi
 Definition merge_ready (c : cfg) (s : st) (ord : list bytes) : Prop :=
   forall sel0, select c s = ROk sel0 -> ord_ok s (sort_ids sel0) ord = true.
 
-Theorem merge_ok c s ord : Inv s -> merge_ready c s ord ->
-  exists s' t, merge c s ord = ROk (s', tt, t) /\ Inv s' /\ (forall k, abs s' k = abs s k) /\ s_clock s' = s_clock s.
-Proof.
-  intros HI Hready. pose proof HI as (Hs & Hle & Hh & Hst & Hact & Hfa & HC).
-  destruct (select_ok c s HI) as (sel0 & bound & Hsel & Hmem).
-  unfold merge, merge_with. rewrite Hsel. rewrite (Hready sel0 Hsel). cbn [negb].
-  set (sel := sort_ids sel0). set (S := fun g => mem g sel).
-  assert (HS : forall g, S g = hasrow (s_stats s) g && match bound with Some b => g <=? b | None => false end).
-  { intros g. unfold S, sel. rewrite mem_sort_ids. apply Hmem. }
-  pose proof HC as (C1 & C2 & C3).
-  assert (Hrow : forall g, hasrow (s_stats s) g = has_file (slog s) g).
-  { intros g. unfold hasrow. destruct (sget (s_stats s) g) eqn:E.
-    - destruct (has_file (slog s) g) eqn:F; [reflexivity|]. apply C3 in F; [congruence|reflexivity].
-    - symmetry. apply C3; [reflexivity|exact E]. }
-  assert (HSle : forall g, S g = true -> g <= s_last s).
-  { intros g Hg. rewrite HS in Hg. apply andb_true_iff in Hg as [Hg _]. rewrite Hrow in Hg.
-    destruct (has_file_dir_get _ _ Hs Hg) as (f & Hget & _). apply dir_get_In in Hget.
-    unfold ids_le in Hle. rewrite Forall_forall in Hle. apply (Hle _ Hget). }
-  (* the first merge output *)
-  unfold create_pair. rewrite (ids_le_get_none _ _ (s_last s + 1) Hle) by lia.
-  rewrite dir_set_new by (apply (ids_le_get_none _ (s_last s)); [exact Hle|lia]).
-  set (d0 := s_dir s ++ [(s_last s + 1, mkFile [] (Some []))]).
-  set (m0 := mkM d0 (s_idx s) (s_stats s) (s_last s + 1) 0 (s_last s + 1) [SCreate (FHint (s_last s + 1)); SCreate (FData (s_last s + 1))]).
-  assert (Hs0 : sorted d0).
-  { apply sorted_app_one; [exact Hs| |lia]. replace (s_last s + 1 - 1) with (s_last s) by lia. exact Hle. }
-  assert (HLI0 : LI s S m0 []).
-  { unfold LI, m0. cbn [m_dir m_idx m_stats m_id m_pos m_last]. rewrite app_nil_r.
-    split; [exact Hs0|]. split.
-    { unfold ids_le. apply Forall_app. split; [apply (ids_le_weaken _ (s_last s)); [exact Hle|lia]|]. constructor; [lia|constructor]. }
-    split.
-    { intros id g Hin. apply in_app_or in Hin as [Hin|[Hin|[]]]; [eauto|]. inversion Hin; subst. split; [reflexivity|constructor]. }
-    split; [reflexivity|]. split; [lia|]. split.
-    { exists (mkFile [] (Some [])), []. split; [|split; reflexivity].
-      apply In_dir_get; [exact Hs0|apply in_or_app; right; left; reflexivity]. }
-    split.
-    { unfold d0. rewrite log_of_dir_app. cbn [log_of_dir log_file d_data]. rewrite !app_nil_r. reflexivity. }
-    split; [constructor|]. split; [apply cons_weaken; exact HC|reflexivity]. }
-  destruct (loop_ok c s S sel ltac:(reflexivity) HSle ord m0 [] HLI0) as (m & M & Hloop & HLI & Hmoved & Hall).
-  rewrite Hloop.
-  destruct HLI as (Hsm & Hlem & Hhm & Hidm & Hgtm & _ & Hlogm & HMm & (D1 & D2 & D3) & HVm).
-  (* no key resolves into a selected file any more *)
-  assert (E1 : forall k l, iget (m_idx m) k = Some l -> S (l_fid l) = false).
-  { intros k l Hk. destruct (Hmoved k) as [E|(l' & E & HSl)]; [|congruence].
-    cbn [m_idx m0] in E. destruct (S (l_fid l)) eqn:ES; [|reflexivity]. exfalso.
-    assert (Hk0 : iget (s_idx s) k = Some l) by congruence.
-    pose proof (Hready sel0 Hsel) as Hok. unfold ord_ok in Hok. apply andb_true_iff in Hok as [_ Hok].
-    rewrite forallb_forall in Hok.
-    pose proof (akeys_spec _ _ _ Hk0) as Hin. apply existsb_exists in Hin as (k0 & Hin & Hb). apply beq_eq in Hb. subst k0.
-    specialize (Hok k Hin). rewrite Hk0 in Hok. fold sel in Hok. fold (S (l_fid l)) in Hok. rewrite ES in Hok. cbn [negb orb] in Hok.
-    specialize (Hall k Hok). rewrite Hk in Hall. congruence. }
-  (* removal of the selected files *)
-  pose proof (unlink_all_spec sel (m_dir m) (m_stats m) (SFsync (FHint (m_id m)) :: SFsync (FData (m_id m)) :: m_trace m) Hsm) as Hun.
-  destruct (unlink_all (m_dir m) (m_stats m) sel _) as [[d2 x2] t2]. destruct Hun as [Ed2 Hx2]. fold S in Ed2.
-  set (s2 := mkSt d2 (m_idx m) x2 (s_active s) (s_written s) (m_last m) true (s_clock s)).
-  assert (Hlog2 : log_of_dir d2 = filter (keep S) (slog s ++ M)) by (rewrite Ed2, log_dir_filter, Hlogm; reflexivity).
-  (* the selected records are a prefix of the old log *)
-  destruct (log_prefix (s_dir s) (fun g => match bound with Some b => g <=? b | None => false end) Hs) as (LS & LR & Esplit & HLS & HLR).
-  { intros i j Hij Hj. destruct bound as [b|]; [|discriminate]. apply N.leb_le in Hj. apply N.leb_le. lia. }
-  fold (slog s) in Esplit.
-  assert (HinS : forall en, In en (slog s) -> S (fid_of en) = match bound with Some b => fid_of en <=? b | None => false end).
-  { intros [[f p] e] Hin. cbn [fid_of]. rewrite HS, Hrow.
-    replace (has_file (slog s) f) with true; [reflexivity|]. symmetry. unfold has_file. apply existsb_exists.
-    exists (f, p, e). split; [exact Hin|]. cbn. apply N.eqb_refl. }
-  assert (HLS' : Forall (fun en => S (fid_of en) = true) LS).
-  { rewrite Forall_forall in *. intros en Hin. rewrite HinS by (rewrite Esplit; apply in_or_app; left; exact Hin). apply HLS. exact Hin. }
-  assert (HLR' : Forall (fun en => S (fid_of en) = false) LR).
-  { rewrite Forall_forall in *. intros en Hin. rewrite HinS by (rewrite Esplit; apply in_or_app; right; exact Hin). apply HLR. exact Hin. }
-  assert (Hfil : filter (keep S) (slog s ++ M) = LR ++ M).
-  { rewrite Esplit, !filter_app, (filter_keep_none S LS HLS'), (filter_keep_all S LR HLR'), (filter_keep_all S M HMm). reflexivity. }
-  (* keys without a record in the kept part resolve to nothing *)
-  assert (Hnokey : forall k, has_key k (LR ++ M) = false -> lastloc LS k None = None).
-  { intros k Hnk. destruct (lastloc LS k None) as [l|] eqn:El; [|reflexivity]. exfalso.
-    assert (Hk : iget (m_idx m) k = Some l).
-    { rewrite D1, Esplit, <- app_assoc, (lastloc_app LS (LR ++ M)), El. apply lastloc_no_key. exact Hnk. }
-    destruct (lastloc_In _ _ _ El) as (f & p & e & Hin & -> & _). rewrite Forall_forall in HLS'. specialize (HLS' _ Hin).
-    specialize (E1 k _ Hk). cbn in *. congruence. }
-  assert (HC2 : cons (log_of_dir d2) (m_idx m) x2).
-  { rewrite Hlog2. split; [|split].
-    - intros k. rewrite D1, Hfil, Esplit, <- app_assoc, (lastloc_app LS (LR ++ M)).
-      destruct (has_key k (LR ++ M)) eqn:Hk; [apply lastloc_has_key; exact Hk|].
-      rewrite (Hnokey k Hk). reflexivity.
-    - intros g _. unfold sget0. rewrite Hx2. fold (S g). destruct (S g) eqn:ES.
-      + destruct (counts_dropped S (slog s ++ M) (m_idx m) g ES) as (-> & -> & -> & _). repeat split.
-      + destruct (counts_filter S (slog s ++ M) (m_idx m) g ES) as (-> & -> & -> & _). apply D2. exact ES.
-    - intros g _. rewrite Hx2. fold (S g). destruct (S g) eqn:ES.
-      + destruct (counts_dropped S (slog s ++ M) (m_idx m) g ES) as (_ & _ & _ & ->). split; reflexivity.
-      + destruct (counts_filter S (slog s ++ M) (m_idx m) g ES) as (_ & _ & _ & ->). apply D3. exact ES. }
-  assert (Hs2 : sorted d2) by (rewrite Ed2; apply dir_filter_sorted; exact Hsm).
-  assert (Hle2 : ids_le d2 (m_last m)).
-  { unfold ids_le in *. rewrite Forall_forall in *. intros [j g] Hin. rewrite Ed2 in Hin. apply dir_filter_In in Hin as [Hin _]. apply (Hlem _ Hin). }
-  assert (Hh2 : forall id f, In (id, f) d2 -> hints_ok f).
-  { intros id f Hin. rewrite Ed2 in Hin. apply dir_filter_In in Hin as [Hin _]. eauto. }
-  destruct (new_active_ok s2 Hs2 Hle2 Hh2 HC2) as (s3 & Hna & HI3 & Hlog3 & _ & _ & Hclk & _).
-  rewrite Hna. eexists s3, _. split; [reflexivity|]. split; [exact HI3|]. split; [|exact Hclk].
-  intros k. unfold abs. rewrite Hlog3. unfold slog at 1. cbn [s_dir s2]. rewrite Hlog2, Hfil.
-  rewrite <- (HVm k). rewrite Esplit, <- app_assoc, (lastval_app LS (LR ++ M)).
-  destruct (has_key k (LR ++ M)) eqn:Hk; [apply lastval_has_key; exact Hk|].
-  rewrite (lastval_no_key _ _ _ Hk), (lastval_no_key _ _ _ Hk).
-  symmetry. apply lastloc_none_iff. apply Hnokey. exact Hk.
-Qed.
